@@ -91,6 +91,24 @@ def persistent_eval(chi, m, sig, yb, ob, S):
     return v, pw, float(s1), np.asarray(g, float).flatten().copy()
 
 
+def whole_numbers(ctx, chi, m, sig, yb, ob, S):
+    """the same whole numbers as float64 arrays, int64 arrays and lists of Python ints are the same
+    parameters, predictions, measurements and sensitivities"""
+    n, p = S.shape
+    k = len(sig)
+    x = np.concatenate([np.where(np.asarray(sig) < 1.0, 1.0, 2.0), np.round(yb) + 1.0, np.round(ob) + 1.0,
+                        np.round(S).flatten()])
+    em = classes(chi)[m][0]()
+
+    def f(v):
+        sg, y_, o_ = v[:k], v[k:k + n], v[k + n:k + 2 * n]
+        S_ = np.asarray(v[k + 2 * n:]).reshape(n, p)
+        sc, gr = em.compute_sensitivities(sg, y_, S_, o_)
+        return (float(em.compute_log_likelihood(sg, y_, o_)), np.asarray(em.compute_pointwise_ll(sg, y_, o_), float),
+                float(sc), np.asarray(gr, float).flatten())
+    ctx.number_types('C04.whole_number_arguments/' + m, f, x, {'model': m, 'n': n, 'p': p})
+
+
 def run_case(ctx, chi, m, sig, yb, ob, S, guard):
     cls = classes(chi)[m][0]
     em = cls()
@@ -102,7 +120,20 @@ def run_case(ctx, chi, m, sig, yb, ob, S, guard):
         s1, g = em.compute_sensitivities(sig, yb, S, ob)
         s1 = float(s1)
         g = np.asarray(g, float).flatten()
+    # results handed out stay what they were, arguments stay what they were
+    held = [(pw, pw.copy()), (g, g.copy())]
+    args_before = [np.array(a, float, copy=True) for a in (sig, yb, ob, S)]
     pv, ppw, ps1, pg = persistent_eval(chi, m, sig, yb, ob, S)
+    with np.errstate(all='ignore'):
+        em.compute_sensitivities(np.asarray(sig, float) * 1.5, yb * 0.5 + 0.1, S * 2.0, ob + 0.3)
+        em.compute_pointwise_ll(np.asarray(sig, float) * 1.5, yb * 0.5 + 0.1, ob + 0.3)
+    ctx.spec('C04.earlier_results_unchanged/' + m, all(np.array_equal(a, b, equal_nan=True) for a, b in held),
+             {'model': m, 'sigma': sig, 'ybar': yb, 'obs': ob, 'S': S})
+    ctx.spec('C04.arguments_unchanged/' + m,
+             all(np.array_equal(np.asarray(a, float), b, equal_nan=True) for a, b in zip((sig, yb, ob, S), args_before)),
+             {'model': m, 'sigma': args_before[0], 'ybar': args_before[1], 'obs': args_before[2], 'S': args_before[3]})
+    if ctx.cases % 2 == 0:
+        whole_numbers(ctx, chi, m, sig, yb, ob, S)
     ctx.spec('C04.same_result_from_reused_object_and_buffers/' + m,
              core.close(pv, v) and core.close(ppw, pw) and core.close(ps1, s1) and
              (not math.isfinite(v) or core.close(pg, g)), {'model': m, 'sigma': sig, 'ybar': yb, 'obs': ob, 'S': S},
